@@ -182,6 +182,7 @@ def run(F, res, tier):
     _c14.offsets_have_one_maker(F, res, rule="D15")
     # the stored text is the client's text up to line ends (C14/U8): nothing else is taken out of it
     _c14.line_ends_and_bom(F, res, rule="D16")
+    _c14.columns_consult_the_width_table(F, res, rule="D17")
 
 
 def store_changes_reach_the_analysis(F, res, rule="D6"):
